@@ -196,6 +196,15 @@ def check_seq(seq, stats):
             hits.append(hit("C04", seq, no, raw, obs[obs.index("REGISTRY-ERROR"):], "registry"))
             if panic_seen or "panic" in obs:
                 hits.append(hit("C10", seq, no, raw, "after / during a panic a component value was dropped twice, dropped without having been created, or found corrupted: " + obs[obs.index("REGISTRY-ERROR"):][:200], "registry-after-panic"))
+        if "ALLOC-ERROR" in obs:
+            # harness/rt/src/alloc_check.rs: a realloc / dealloc of gecs used a layout that is not the
+            # block's own (undefined behaviour by the GlobalAlloc contract): the capacity the storage
+            # believes in no longer describes its arrays
+            msg = obs[obs.index("ALLOC-ERROR"):][:260]
+            for pr_ in ("C03", "C04", "C12", "C19"):
+                hits.append(hit(pr_, seq, no, raw, "memory safety: " + msg, "alloc-layout"))
+            if panic_seen or "panic" in obs:
+                hits.append(hit("C10", seq, no, raw, "after / during a panic the storage released or resized one of its arrays with a layout that is not the array's own: " + msg, "alloc-layout-after-panic"))
         if obs.startswith("panic") or "end=panic" in obs:
             panic_seen = True
         if any(s[3] for s in summary):
@@ -366,11 +375,15 @@ def check_seq(seq, stats):
                 pm = re.search(r" paths=(\S+)", obs)
                 if pm:
                     body = obs[5:obs.index(" paths=")]
-                    if pm.group(1) != "ok":
+                    labels_ = pm.group(1)[5:].split("+") if pm.group(1).startswith("DIFF:") else []
+                    laws_ = [l_ for l_ in labels_ if l_.startswith("law:")]
+                    if laws_:
+                        hits.append(hit("C06", seq, no, raw, f"Archetype::iter() / iter_mut() of archetype {op[1]}, driven through Iterator adapters, do not present every live entity exactly once with its own data (compared with a plain `for` pass over the same iterator): {', '.join(l_[4:] for l_ in laws_)}", "iter-adapter"))
+                    if pm.group(1) != "ok" and len(laws_) < len(labels_):
                         hits.append(hit("C02", seq, no, raw, f"the access paths of archetype {op[1]} disagree with each other: {pm.group(1)}", "paths-disagree"))
                         if "-len" in pm.group(1):
                             hits.append(hit("C06", seq, no, raw, f"a slice accessor of archetype {op[1]} does not present exactly len() items: {pm.group(1)}", "slice-len"))
-                        if "iter" in pm.group(1) or "entities" in pm.group(1):
+                        if any(("iter" in l_ or "entities" in l_) and not l_.startswith("law:") for l_ in labels_):
                             hits.append(hit("C06", seq, no, raw, f"Archetype::iter / iter_mut / entities() of archetype {op[1]} do not present each entity with its own handle and components: {pm.group(1)}", "iter-paths-disagree"))
                 for r in body.split("|"):
                     if ":" in r:
@@ -429,6 +442,13 @@ def check_seq(seq, stats):
             if obs.startswith("d "):
                 src = hvars.get(op[3])
                 dw = obs.split()[1]
+                at0_ = next((int(t_[1:]) for t_ in op[5:] if t_.startswith("@")), None)
+                if at0_ is not None and op[1] == "a" and op[2] == "y" and src and src[0] in ("e", "d") and src[1] and "." in src[1] and at0_ < len(ids):
+                    kid_ = int(src[1].split(".")[0]) & 0xff
+                    if ids[at0_] != kid_:
+                        hits.append(hit("C03", seq, no, raw, f"archetype {at0_} (id {ids[at0_]}) accepted the dynamically typed key {src[1]} of archetype id {kid_} in its archetype-level to_direct and returned {dw}", "other-arch-accepted"))
+                        hits.append(hit("C01", seq, no, raw, f"the handle {src[1]} (archetype id {kid_}) was resolved by archetype {at0_} (id {ids[at0_]}) to one of ITS entities ({dw}): a lookup returns the handle's own entity or nothing", "wrong-entity"))
+                        hits.append(hit("C14", seq, no, raw, f"to_direct converted the handle {src[1]} of archetype id {kid_} into the direct handle {dw} of archetype id {ids[at0_]}: conversions never change which archetype a handle belongs to", "to-direct-foreign"))
                 # the harness types the new variable like its source (or `@arch`), except for the
                 # world-level dynamically typed call, whose result is typed by its own id
                 did_ = int(dw.split(".")[0]) & 0xff
@@ -485,6 +505,19 @@ def check_seq(seq, stats):
             hv = hvars.get(op[1])
             f = fields(obs)
             stats["probes"] += 1
+            if hv and hv[0] in ("e", "d") and hv[1] and hv[1] != "?" and hv[2] is not None and "." in hv[1]:
+                kid_ = int(hv[1].split(".")[0]) & 0xff
+                oth_ = (hv[2] + 1) % narch
+                if oth_ < len(ids) and ids[oth_] != kid_:
+                    for nm_ in ("or", "od", "ov", "ob"):
+                        v_ = f.get(nm_)
+                        if v_ and accepted(nm_, v_):
+                            path_ = {"or": "resolve", "od": "to_direct", "ov": "view", "ob": "borrow"}[nm_]
+                            hits.append(hit("C03", seq, no, raw, f"archetype {oth_} (id {ids[oth_]}) accepted the dynamically typed key {hv[1]} of archetype id {kid_} in its archetype-level {path_}: {nm_}={v_[:60]}", "other-arch-accepted"))
+                            hits.append(hit("C01", seq, no, raw, f"the handle {hv[1]} (archetype id {kid_}) was resolved by archetype {oth_} (id {ids[oth_]}) through {path_} to one of ITS entities ({nm_}={v_[:60]}): a lookup returns the handle's own entity or nothing", "wrong-entity"))
+                            if nm_ == "od":
+                                hits.append(hit("C14", seq, no, raw, f"to_direct converted the handle {hv[1]} of archetype id {kid_} into the direct handle {v_} of archetype id {ids[oth_]}: conversions never change which archetype a handle belongs to", "to-direct-foreign"))
+                            break
             if w is not None:
                 for name in VIEW_FIELDS:
                     v = f.get(name)
@@ -845,7 +878,8 @@ def check_vals(seq, no, raw, w, pairs, hits, where):
             continue
         exp = w.vals.get(tok)
         if exp is not None and exp != val:
-            hits.append(hit("C02", seq, no, raw, f"{where} shows component {tok} with value {val}; the value last written to it through any path is {exp}", "stale-value"))
+            note_ = " (18446744073709551615 is the harness' marker for: Components::get, get_mut and into_tuple of the struct handed back disagree with each other)" if val == "18446744073709551615" else ""
+            hits.append(hit("C02", seq, no, raw, f"{where} shows component {tok} with value {val}; the value last written to it through any path is {exp}{note_}", "stale-value"))
             return
 
 
